@@ -194,6 +194,16 @@ class _ReadSourceGenerator:
                 size = None
                 is_dynamic = True
 
+            if not is_dynamic and issubclass(field_type, BaseArray):
+                # A fixed size array is unpacked as part of a block, which only knows the types listed above
+                element_type = field_type
+                while issubclass(element_type, BaseArray):
+                    element_type = element_type.type
+                    if isinstance(element_type, EnumMetaType):
+                        element_type = element_type.type
+                if not issubclass(element_type, SUPPORTED_TYPES):
+                    raise TypeError(f"Unsupported type for compiler: {field_type}")
+
             # Sub structure
             if issubclass(field_type, Structure):
                 yield from flush()
@@ -253,6 +263,9 @@ class _ReadSourceGenerator:
             if current_offset is not None and size is not None and (not field.bits or bits_rollover):
                 current_offset += size
                 bits_rollover = False
+            elif size is None:
+                # After a dynamically sized field we no longer know where we are (a later explicit offset needs a seek)
+                current_offset = None
 
         yield from flush()
 
